@@ -10,3 +10,10 @@ pub mod state;
 pub mod tests;
 
 pub use crate::error::ContractError;
+
+/// Verification hooks: constants that external property-based harnesses need to know.
+/// Compiled only with `--cfg wwcore_verif`.
+#[cfg(wwcore_verif)]
+pub mod verif_hooks {
+    pub use crate::commands::VERIF_MINIMUM_AGGREGABLE_BALANCE as MINIMUM_AGGREGABLE_BALANCE;
+}
